@@ -201,6 +201,19 @@ def run(ctx):
                     i = len(jobs)
                     jobs.append((runner, tmp, i, text.encode(), lg, "", False, use_asan))
                     meta[i] = ("deep %r x %d" % (opener, depth), text.encode(), lg, "")
+    # blocks of sortable lines longer than any small-size special case of the sort (16 in libstdc++), with repeats: identical lines, a
+    # descending run framed by its greatest element, random repeats - under the sorters alone and under the all-options configurations
+    sorters = "mod_sort_include=true\nmod_sort_import=true\nmod_sort_using=true\n"
+    for n_ in ((17, 40) if quick else (16, 17, 18, 20, 33, 40, 100)):
+        shapes = {"same": ["k"] * n_, "desc": ["z"] + [chr(ord("y") - (k % 24)) + str(k // 24) for k in range(n_ - 2)] + ["z"],
+                  "rand": [ctx.rng.choice("abcdef") for _ in range(n_)]}
+        for shape, names in shapes.items():
+            for lg, fmt in (("C", '#include "%s.h"'), ("CPP", "#include <%s>"), ("JAVA", "import p.%s;"), ("CS", "using N.%s;"), ("OC", '#import "%s.h"')):
+                text = "\n".join(fmt % x for x in names) + "\nint after;\n" if lg in ("C", "CPP", "OC") else "\n".join(fmt % x for x in names) + "\nclass K { }\n"
+                for cfgt in [sorters, sorters + "mod_sort_incl_import_grouping_enabled=true\n", sorters + "mod_sort_case_sensitive=true\nmod_sort_incl_import_prioritize_filename=true\n"] + fulls[:(2 if quick else 10)]:
+                    i = len(jobs)
+                    jobs.append((runner, tmp, i, text.encode(), lg, cfgt, False, use_asan))
+                    meta[i] = ("sortblock %s x %d" % (shape, n_), text.encode(), lg, cfgt)
     # the same depth with declarations inside, under configurations that switch the per-level tables on (align_*, indent_*)
     body = "void f(\n    int a,\n       int bb);\nint x = 1;\nint *p = (int *)q;\nx = a + // c\n    b;\n"
     for opener, closer in (("namespace a {\n", "}\n"), ("{\n", "}\n"), ("if (a) {\n", "}\n"), ("struct s {\n", "};\n"), ("class c { public:\n", "};\n"), ("switch (a) { case 1: {\n", "}}\n")):
